@@ -401,7 +401,24 @@ fn cmd_runtrace(budget: u64, src: &str) -> String {
 }
 
 /// `eval` with output capture, instruction budget and heap audit
+/// hash of the TEXT of an error (C16: the same text must give the same error, message included, on every thread, in
+/// every order and build profile; the model knows error kinds only, so this part is compared between runs of the
+/// implementation and stripped before the comparison with the model)
+fn err_text_hash(e: &Error) -> u64 {
+    let t = format!("{:?}", e);
+    let mut h: u64 = 0xcbf29ce484222325;
+    for b in t.as_bytes() {
+        h ^= *b as u64;
+        h = h.wrapping_mul(0x100000001b3);
+    }
+    h
+}
+
 fn run_eval(budget: u64, src: &str, extended: bool) -> String {
+    run_eval_m(budget, src, extended, false)
+}
+
+fn run_eval_m(budget: u64, src: &str, extended: bool, with_msg: bool) -> String {
     verif::heap_reset();
     verif::capture_start();
     verif::set_budget(Some(budget));
@@ -429,6 +446,11 @@ fn run_eval(budget: u64, src: &str, extended: bool) -> String {
     if r.is_ok() || plain_error {
         line.push_str(" | ");
         line.push_str(&hex(output.as_bytes()));
+    }
+    if with_msg && plain_error {
+        if let Err(e) = &r {
+            line.push_str(&format!(" @m={:016x}", err_text_hash(e)));
+        }
     }
     if let Ok(obj) = r {
         free_graph(obj);
@@ -546,7 +568,7 @@ fn cmd_sessionbytes(budget: u64, lines: &[String]) -> String {
 /// evaluate the batch concurrently: `n` threads, each repeatedly takes the next program of its own
 /// seeded order; every program is evaluated by several threads and all answers for one program
 /// must be identical (returned once; `DIVERGED` otherwise)
-fn cmd_threads(n: usize, seed: u64, budget: u64, progs: Vec<String>) -> String {
+fn cmd_threads(n: usize, seed: u64, budget: u64, progs: Vec<String>, with_msg: bool) -> String {
     use std::sync::{Arc, Mutex};
     let progs = Arc::new(progs);
     let results: Arc<Mutex<Vec<Vec<String>>>> = Arc::new(Mutex::new(vec![Vec::new(); progs.len()]));
@@ -565,7 +587,7 @@ fn cmd_threads(n: usize, seed: u64, budget: u64, progs: Vec<String>) -> String {
                         x ^= x << 25;
                         x ^= x >> 27;
                         let k = (x.wrapping_mul(0x2545F4914F6CDD1D) >> 11) as usize % progs.len();
-                        let r = catch_unwind(AssertUnwindSafe(|| run_eval(budget, &progs[k], false)))
+                        let r = catch_unwind(AssertUnwindSafe(|| run_eval_m(budget, &progs[k], false, with_msg)))
                             .unwrap_or_else(|_| "PANIC".to_string());
                         results.lock().unwrap()[k].push(r);
                     }
@@ -581,7 +603,7 @@ fn cmd_threads(n: usize, seed: u64, budget: u64, progs: Vec<String>) -> String {
     for (k, rs) in results.iter().enumerate() {
         if rs.is_empty() {
             // not drawn by any thread: evaluate here
-            out.push(run_eval(budget, &progs[k], false));
+            out.push(run_eval_m(budget, &progs[k], false, with_msg));
         } else if rs.iter().all(|r| r == &rs[0]) {
             out.push(rs[0].clone());
         } else {
@@ -611,6 +633,10 @@ fn handle(line: &str) -> String {
         },
         ["eval", b, h] => match (b.parse::<u64>(), unhex(h)) {
             (Ok(b), Some(t)) => run_eval(b, &t, false),
+            _ => "bad-hex".into(),
+        },
+        ["evalm", b, h] => match (b.parse::<u64>(), unhex(h)) {
+            (Ok(b), Some(t)) => run_eval_m(b, &t, false, true),
             _ => "bad-hex".into(),
         },
         ["evalx", b, h] => match (b.parse::<u64>(), unhex(h)) {
@@ -649,7 +675,7 @@ fn handle(line: &str) -> String {
             }
             cmd_sessionbytes(b, &lines)
         }
-        ["threads", n, seed, b, rest @ ..] => {
+        [cmd @ ("threads" | "threadsm"), n, seed, b, rest @ ..] => {
             let (n, seed, b) = match (n.parse::<usize>(), seed.parse::<u64>(), b.parse::<u64>()) {
                 (Ok(n), Ok(s), Ok(b)) => (n, s, b),
                 _ => return "bad-request".into(),
@@ -661,7 +687,7 @@ fn handle(line: &str) -> String {
                     None => return "bad-hex".into(),
                 }
             }
-            cmd_threads(n, seed, b, progs)
+            cmd_threads(n, seed, b, progs, *cmd == "threadsm")
         }
         ["tables"] => verif::tables().replace('\n', " ;; "),
         ["obj", rest @ ..] => objops::handle(rest),
